@@ -14,6 +14,8 @@ mod op;
 
 mod lru;
 pub(crate) use lru::Lru;
+#[cfg(fidget_verif)]
+pub use lru::Lru as VerifLru;
 pub use op::{RegOp, SsaOp};
 
 mod reg_tape;
